@@ -27,9 +27,26 @@ def impl_accepts(marshal, error, kind, s):
         return 'exc:' + type(e).__name__
 
 
+def unflagged_high():
+    """code points above 0x7f that one of the tree's character-class regexes does NOT flag (none on a correct tree; the
+    regenerated table then breaks its lemma, and these are the inputs on which the validators can be shown to go wrong)"""
+    from txdbus import marshal
+    allhigh = ''.join(chr(c) for c in range(0x80, 0x110000) if not 0xD800 <= c <= 0xDFFF)
+    out = set()
+    for rx in ('invalid_obj_path_re', 'if_re', 'bus_re', 'mbr_re'):
+        r = getattr(marshal, rx, None)
+        if r is not None:
+            out.update(r.sub('', allhigh)[:6])
+    return sorted(out)
+
+
 def gen_cases(ctx):
     rng = ctx.rng
     maxlen = ctx.n(5, 6)
+    for ch in unflagged_high():
+        for s in (ch, 'a' + ch, ch + 'a', 'a.' + ch, ch + '.b', 'a' + ch + '.b', '/' + ch, '/a/' + ch + 'b', ':1.' + ch, 'a.b' + ch,
+                  ch * 200 + '.b', 'm' + ch * 199):
+            yield s
     for n in range(0, maxlen + 1):
         for t in itertools.product(ALPHABET, repeat=n):
             yield ''.join(t)
